@@ -321,8 +321,10 @@ Lemma msg_ok p sc fl m :
   msg_accepted m = true -> msg_tags p sc fl m = [] -> all_ok (msg_checks p sc fl m) = true.
 Proof.
   intros Hacc Ht. unfold msg_tags in Ht. apply app_eq_nil in Ht as [Hdup Hfe]. apply tag_if_nil in Hdup.
-  unfold msg_checks. rewrite all_ok_cons. apply andb_true_iff. split.
+  apply app_eq_nil in Hfe as [Hcl Hfe]. apply tag_if_nil in Hcl.
+  unfold msg_checks. rewrite !all_ok_cons. apply andb_true_iff. split; [|apply andb_true_iff; split].
   - cbn [ck_ok mk]. unfold marshal_methods. now apply nodup_const.
+  - cbn [ck_ok mk]. now rewrite Hcl.
   - rewrite all_ok_flat_map. apply forallb_in. intros ft Hft.
     pose proof (flat_map_nil _ _ Hfe ft Hft) as Hn. cbn beta in Hn.
     destruct (plugin_emits p fl ft); [now apply feature_ok|reflexivity].
@@ -371,13 +373,17 @@ Proof.
     + now apply (flat_map_nil _ _ Hm).
   - rewrite all_ok_flat_map. apply forallb_in. intros e Hin. apply enum_ok. now apply (flat_map_nil _ _ He).
   - destruct p.
-    + apply app_eq_nil in Hp as [Hp1 Hp2]. apply tag_if_nil in Hp2. apply negb_false_iff in Hp2.
-      rewrite all_ok_app. apply andb_true_iff. split.
+    + apply app_eq_nil in Hp as [Hp1 Hp2]. apply app_eq_nil in Hp2 as [Hp2 Hp3].
+      apply tag_if_nil in Hp2. apply negb_false_iff in Hp2. apply tag_if_nil in Hp3.
+      rewrite !all_ok_app. apply andb_true_iff. split; [|apply andb_true_iff; split].
       * rewrite all_ok_flat_map. apply forallb_in. intros m Hin.
         pose proof (flat_map_nil _ _ Hp1 m Hin) as Hn. cbn beta in Hn. apply tag_if_nil in Hn.
         unfold error_impl_checks. destruct (is_error_msg m); [|reflexivity].
         cbn [andb] in Hn. unfold all_ok. cbn [forallb ck_ok mk]. now rewrite Hn.
       * unfold all_ok. cbn [forallb ck_ok mk]. now rewrite Hp2.
+      * rewrite all_ok_flat_map. apply forallb_in. intros sv Hsv.
+        pose proof (existsb_false _ _ Hp3 sv Hsv) as Hg. cbn beta in Hg.
+        unfold service_checks, all_ok. cbn [forallb ck_ok mk]. now rewrite Hg.
     + rewrite all_ok_flat_map. apply forallb_in. intros md Hin. apply client_method_ok. now apply (flat_map_nil _ _ Hp).
   - unfold all_ok. cbn [forallb ck_ok mk]. now rewrite Hi.
   - reflexivity.
@@ -433,13 +439,31 @@ Proof.
     destruct (input_msg sc md) as [m|]; try destruct (query_fields_of m); cbn; intros H; try discriminate; reflexivity.
 Qed.
 
-Theorem ts_loads_always sc : ts_loads sc = true.
+Theorem ts_server_loads_always sc fl : ts_server_loads sc fl = true.
 Proof.
-  unfold ts_loads. apply forallb_in. intros fl _. apply andb_true_iff. split.
-  - unfold ts_server_loads. apply forallb_in. intros sv _. apply forallb_in. intros md _. apply ts_route_never_redeclares.
-  - unfold ts_client_loads. apply forallb_in. intros md _. unfold ts_client_consts.
-    destruct (has_body md); [reflexivity|]. destruct (input_msg sc md) as [m|]; [|reflexivity].
-    destruct (query_fields_of m); reflexivity.
+  unfold ts_server_loads. apply forallb_in. intros sv _. apply forallb_in. intros md _. apply ts_route_never_redeclares.
+Qed.
+
+Lemma ts_client_consts_nodup sc md : nodup_strb (ts_client_consts sc md) = true.
+Proof.
+  unfold ts_client_consts. destruct (has_body md); [reflexivity|]. destruct (input_msg sc md) as [m|]; [|reflexivity].
+  destruct (query_fields_of m); reflexivity.
+Qed.
+
+(* what is left on the TS side is name-driven: a method called Constructor, a header whose property
+   name is not an identifier *)
+Theorem ts_loads_of_tags sc : ts_tags sc = [] -> ts_loads sc = true.
+Proof.
+  unfold ts_tags. intros H. apply app_eq_nil in H as [H1 H2]. apply tag_if_nil in H1. apply tag_if_nil in H2.
+  unfold ts_loads. apply forallb_in. intros fl Hfl. rewrite ts_server_loads_always. cbn [andb].
+  unfold ts_client_loads. apply andb_true_iff. split.
+  - apply forallb_in. intros md Hmd. rewrite ts_client_consts_nodup. cbn [andb].
+    pose proof (existsb_false _ _ H1 fl Hfl) as E. cbn beta in E.
+    pose proof (existsb_false _ _ E md Hmd) as E2. cbn beta in E2. now apply negb_false_iff in E2.
+  - apply forallb_in. intros sv Hsv. apply forallb_in. intros h Hh.
+    pose proof (existsb_false _ _ H2 fl Hfl) as E. cbn beta in E.
+    pose proof (existsb_false _ _ E sv Hsv) as E2. cbn beta in E2.
+    pose proof (existsb_false _ _ E2 h Hh) as E3. cbn beta in E3. now apply negb_false_iff in E3.
 Qed.
 
 Theorem C13_builds_lemma : forall sc, accepted sc = true -> defects_C13 sc = [] ->
@@ -450,7 +474,7 @@ Proof.
   split.
   - intros ps. apply go_builds_and_vets; [assumption|]. unfold defects_go.
     destruct ps; [rewrite H1|rewrite H2|rewrite H3]; reflexivity.
-  - apply ts_loads_always.
+  - now apply ts_loads_of_tags.
 Qed.
 
 (* ================================================================================================ *)
@@ -623,7 +647,7 @@ Lemma header_declared_twice_builds :
   let sc := hdr_schema ["X-Trace"; "X-Tenant"] ["X-Tenant"; "Trace"] ["X-Tenant"; "X-Req"] in
   accepted sc = true /\ defects_C13 sc = [] /\ go_vets sc OnlyClient = true /\ go_vets sc Both = true /\
   client_decls (hd (file_of "" [] [] []) sc) =
-    map s ["<client_constants>"; "EchoClient"; "echoClient"; "EchoClientOption"; "WithEchoHTTPClient"; "WithEchoContentType";
+    map s ["<client_constants>"; "ContentTypeJSON"; "ContentTypeProto"; "EchoClient"; "echoClient"; "EchoClientOption"; "WithEchoHTTPClient"; "WithEchoContentType";
            "WithEchoDefaultHeader"; "EchoCallOption"; "echoCallOptions"; "WithEchoHeader"; "WithEchoCallContentType"; "NewEchoClient";
            "WithEchoTrace"; "WithEchoTenant"; "WithEchoCallTrace"; "WithEchoCallTenant"; "WithEchoCallReq"].
 Proof. vm_compute. repeat split; reflexivity. Qed.
@@ -653,3 +677,55 @@ Lemma ts_get_with_path_and_query_loads :
   ts_route_consts sc (svc "S" [] []) (rpc "Get" "Q" "R" 1 "/x/{id}" []) =
     map s ["pathParams"; "url"; "pathSegments"; "params"; "body"; "ctx"; "result"].
 Proof. vm_compute. repeat split; reflexivity. Qed.
+
+(* ---- hostile identifiers: proto names that are reserved words, predeclared identifiers, locals of
+        the emitted functions or names the generators declare themselves ---------------------------- *)
+Definition verbs_schema (names : list string) : schema :=
+  [file_of "a.proto" [msg "P" [fld "m" KString Singular None []] []] []
+     [svc "Verbs" [] (map (fun n => rpc n "P" "P" 2 (String "/"%char n) []) names)]].
+
+(* harmless on this tree: field / path / query names go through req.<X> (Go: capitalised, TS: property
+   access), method names become class members and capitalised Go methods *)
+Definition hostile_harmless : schema :=
+  [file_of "a.proto"
+     [msg "R" [fld "ok" KBool Singular None []] [];
+      msg "Q1" [fld "package" KString Singular None []; fld "class" KString Singular None [AQuery]; fld "path" KString Singular None [AQuery];
+                fld "url" KInt32 Singular None [AQuery]; fld "type" KString Singular None [AQuery]; fld "func" KBool Singular None [AQuery];
+                fld "err" KString Singular None [AQuery]; fld "req" KString Singular None [AQuery]; fld "default" KString Singular None [AQuery]] [];
+      msg "Q2" [fld "path" KString Singular None []; fld "new" KString Singular None []] [];
+      msg "Enc" [fld "range" KInt64 Singular None [AI64]; fld "select" KInt64 Optional None []; fld "x" KInt64 Singular None [AI64]; fld "raw" KInt64 Singular None [AI64];
+                 fld "data" KInt64 Repeated None [AI64]; fld "len" KString Singular None []; fld "nil" KString Singular None []] []]
+     []
+     [svc "Http" ["X-Type"; "X-Default"; "constructor"]
+        [rpc "Delete" "Q1" "R" 4 "/a/{package}" []; rpc "New" "Q2" "R" 1 "/b/{path}/{new}" ["X-Class"]; rpc "Default" "Enc" "Enc" 2 "/c" [];
+         rpc "Function" "Enc" "R" 3 "/d" []; rpc "Generic" "Enc" "R" 5 "/e" []]]].
+Lemma hostile_harmless_builds :
+  accepted hostile_harmless = true /\ defects_C13 hostile_harmless = [] /\
+  go_vets hostile_harmless OnlyHttp = true /\ go_vets hostile_harmless OnlyClient = true /\ go_vets hostile_harmless Both = true /\
+  ts_loads hostile_harmless = true.
+Proof. vm_compute. repeat split; reflexivity. Qed.
+
+Lemma w_ts_constructor :
+  let sc := verbs_schema ["Get"; "Constructor"] in
+  accepted sc = true /\ defects_C13 sc = [s "ts-client-method-named-constructor"] /\ ts_loads sc = false /\
+  ts_server_loads sc (hd (file_of "" [] [] []) sc) = true /\ go_vets sc Both = true.
+Proof. vm_compute. repeat split; reflexivity. Qed.
+Lemma w_ts_header_prop :
+  let sc := hdr_schema [] ["X-1st"] [] in
+  accepted sc = true /\ defects_C13 sc = [s "ts-client-header-property-not-identifier"] /\ ts_loads sc = false /\ go_vets sc Both = true.
+Proof. vm_compute. repeat split; reflexivity. Qed.
+Lemma w_method_generic : refuted (verbs_schema ["Generic"; "Other"]) ["method-named-generic"] OnlyHttp ["type"].
+Proof. refute. Qed.
+Lemma method_generic_last_builds :
+  let sc := verbs_schema ["Other"; "Generic"] in defects_C13 sc = [] /\ go_vets sc Both = true.
+Proof. vm_compute. split; reflexivity. Qed.
+Lemma w_method_bind : refuted (verbs_schema ["Bind"]) ["package-declaration-clash"] OnlyHttp ["redeclared"].
+Proof. refute. Qed.
+Lemma w_message_named_like_helper :
+  refuted [file_of "a.proto" [msg "ServerOption" [fld "m" KString Singular None []] []; msg "A" [fld "m" KString Singular None []] []] [] [echo "A"]]
+          ["package-declaration-clash"] OnlyHttp ["redeclared"].
+Proof. refute. Qed.
+Lemma w_field_named_marshaljson :
+  refuted (one [msg "A" [fld "marshal_j_s_o_n" KString Singular None []; fld "big" KInt64 Singular None [AI64]] []])
+          ["field-named-like-codec-method"] OnlyClient ["redeclared"].
+Proof. refute. Qed.
